@@ -35,7 +35,12 @@ CFG = {
         "c03_heap_history, c03_heap_ownership, c03_heap_Own, c03_free_list_sound): in every family of handles reachable from the empty "
         "tree by Clone / ReplaceOrInsert / Delete / DeleteMin / DeleteMax each handle stands for the functional tree of the functional "
         "model, an operation through one handle leaves every other handle's tree unchanged, a node owned by a handle's context is in no "
-        "other handle's tree, and newNode never hands out a node of any tree.  Not modelled at the heap level: Clear/reset, the reads, "
+        "other handle's tree, and newNode never hands out a node of any tree.  Clear(addNodesToFreelist) and node.reset are modelled too "
+        "(C03_HeapClear.v: reset releases only nodes of the cleared tree that the clearing handle's context owns - "
+        "c03_heap_reset_owned_only, c03_heap_clear - so with the ownership invariant Clear through one handle changes no other "
+        "handle's tree: c03_clone_isolation and c03_heap_history now range over Clear(true|false) and over NewWithFreeList on the "
+        "shared free list as well, for a free list of any size, c03_heap_history_any_free_list; that reset releases ALL owned nodes "
+        "until the list is full is not claimed, it does not matter for what a tree holds).  Not modelled at the heap level: the reads, "
         "concurrent use of a tree and its clone from different goroutines (one operation at a time).  The concurrent clause for the "
         "wrapper is reduced to sequential histories by the lock-discipline lint (Insert/Update/UpdateOrInsert/Delete/Get hold rw for the "
         "whole body) plus run-time checks with concurrent callers (disjoint key classes; one writer moving an entry with Update under "
@@ -48,7 +53,12 @@ CFG = {
         "every pivot position of one tree; clone program: up to 4 handles, 25-75 steps with snapshots of all handles; concurrent: "
         "2-4 goroutines on disjoint key classes of one wrapper; targeted: every limit 0..len+1 of the four wrapper scans and every stop "
         "count of the ten entry points on trees of >= 3 levels, every present key stored again, Clone taken exactly when the root "
-        "is full, as a leaf and as an inner root, followed by a write on either side; big wrapper trees of 1100-1500 keys (thorough: up to "
+        "is full, as a leaf and as an inner root, followed by a write on either side; clone programs whose trees (the first one "
+        "and further ones made during the program) are made with NewWithFreeList on one free list of 1-4 or 32 nodes, with "
+        "Clear(true/false) on originals and clones, right after Clone and later, each followed by a burst of inserts on some "
+        "handle that takes the recycled nodes and by snapshots of all handles - the model says Clear empties that tree only; "
+        "these programs first check directly in the harness that New / NewWithFreeList with degree <= 1 and ReplaceOrInsert(nil) "
+        "panic, a missing panic is reported as a failing case; big wrapper trees of 1100-1500 keys (thorough: up to "
         "5000) given compactly as key = start + step*((j*stride) mod count), payload = key+7, which both sides expand and insert in "
         "that order, then the four scans with the all-pass and one sparse filter and limits from {1023, 1024, 1025, 2000, len-1, len, "
         "len+1, 2^20}; for these the scan results are compared through a summary only - (number of items, first 3 items, last 3 "
